@@ -91,6 +91,11 @@ func c01Case(r *evid.Run, tier string, idx int, g *rng.R) {
 		// every fourth case runs the evaluator on the independent Cursor implementation (R-ref)
 		w, err = newRefWorld(d)
 		r.Count("cases_on_reference_cursor", 1)
+		if err == nil && idx%8 == 7 {
+			// identity of nodes is Pos(): this view hands out a fresh cursor value on every access
+			w.lazy = true
+			r.Count("cases_on_lazily_allocated_cursors", 1)
+		}
 	}
 	if err != nil {
 		r.Violate("store-tree-mismatch", map[string]any{"case": idx, "what": err.Error(), "document": d.Dump()})
